@@ -10,10 +10,21 @@ def build(tier):
     groups = SG.select(PROP, FAMILIES, report)
     from props import shiftmodes
     groups += shiftmodes.lemmas(report)
+    # head of the chain: the ordering primitive itself (argsort / SortEigenvalue / BothEnds map), shared with C18
+    from props import C18
+    g18, _ = C18.build(tier)
+    groups += [g for g in g18 if g.name.startswith(("argsort.", "ctor.", "bothends.", "table.", "cmp.swo"))]
     meta = {"level": "proof", "trusted_base": SG.TRUSTED + ["z3 4.8.12 (five real-arithmetic identities)"], "assumptions": SG.ASSUMPTIONS, "extraction": report,
             "not_covered": ['that the restarted iteration converges to the wanted end of the spectrum (numerical)'],
             "explanation": 'plumbing of the selection rule: argsort contract -> retrieve_ritzpair -> restart shifts -> compute'}
     return groups, meta
+
+
+def replay(g, o, assigns, path):
+    if g.name.startswith(("argsort.", "ctor.", "bothends.", "cmp.", "table.")):
+        from props import C18
+        return C18.replay(g, o, assigns, path)
+    return None
 
 
 MANIFEST = {
